@@ -1,0 +1,20 @@
+package tcp
+
+import "io"
+
+// halfClose passes the end of a stream on to the other side of a tunnel.
+// err is the result of the copy to dst. If the copy ended cleanly the
+// writing side of dst is shut down, so that the peer sees the end of the
+// data while the opposite direction stays usable for what is still on its
+// way: the reply to a request whose sender has finished sending, or the
+// remaining data for an upstream which has already said everything.
+// If dst cannot be half-closed io.EOF is returned, which ends the tunnel.
+func halfClose(dst io.Writer, err error) error {
+	if err != nil {
+		return err
+	}
+	if cw, ok := dst.(interface{ CloseWrite() error }); ok && cw.CloseWrite() == nil {
+		return nil
+	}
+	return io.EOF
+}
